@@ -77,6 +77,10 @@ def decObs : V → Option Obs
     operation, (failed) fail every request in flight with an error, (closed) leave the
     transport reporting `closed`, and (signalled) raise the fault signal if the transport was
     not reporting `closed` before;
+  * silence     — when the deadline of the transaction in flight passes while it is blocked in an
+                  I/O call (write, header read or body read: the peer is silent), the request is
+                  failed in that very operation; if the re-connect then succeeds the transport is
+                  `open` with nothing owed, so the next clause applies to the next request;
   * carries     — a request issued while the transport reports `open` and no request is owed a
                   response is not rejected, and when its write call succeeds its frame has
                   reached the peer.
@@ -122,6 +126,19 @@ def vFail (a : Acc) (op : Op) (o : Obs) : Verdict :=
       else .ok
   else .ok
 
+/-- the clause on silence: the operation `timeoutHere r` says that the deadline of the
+    transaction in flight passed while it was blocked in an I/O call (the write, the read of
+    the header or the read of the body).  For a request with a deadline silence ends there: in
+    that very operation the request in flight must be failed (handed an error; `settle` has
+    already made sure it is handed nothing twice). -/
+def vSilence (a : Acc) (op : Op) (o : Obs) : Verdict :=
+  match op with
+  | .timeoutHere _ =>
+    match firstNotFailed a.owed o.dels with
+    | some id => .fail "deadline-silence-not-failed" [V.ofNat a.idx, V.ofNat id]
+    | none => .ok
+  | _ => .ok
+
 /-- the transport reported `open` and no request is owed a response -/
 def idleOpen (a : Acc) : Bool := a.prev = .opened ∧ a.owed = []
 
@@ -158,7 +175,9 @@ def nextAcc (a : Acc) (op : Op) (o : Obs) (owed2 ab2 : List Nat) : Acc :=
 def specStep (a : Acc) (op : Op) (o : Obs) : Verdict × Acc :=
   match settle (owedWith a op) a.abandoned o.dels with
   | .error id => (.fail "response-not-owed" [V.ofNat a.idx, V.ofNat id], a)
-  | .ok (owed2, ab2) => ((vFail a op o).and (fun _ => vCarry a op o), nextAcc a op o owed2 ab2)
+  | .ok (owed2, ab2) =>
+    ((vFail a op o).and (fun _ => (vSilence a op o).and (fun _ => vCarry a op o)),
+     nextAcc a op o owed2 ab2)
 
 def specGo (a : Acc) : List (Op × Obs) → Verdict
   | [] => .ok
